@@ -50,7 +50,9 @@ RULE = (
     "directions (azimuth multiple of 90, dip in {-90, 0, 90}) for the correspondence and arbitrary angles for the oracle; query depths "
     "at, between and beyond the stations and 0; histories of 1-3 add_data calls, each with 1-3 depth / from-to data sets (later sets of a call repeating depths of earlier ones, arrays in unsorted logging order), with depths that repeat, "
     "collocate within / outside the tolerance (default 0.01 and explicit ones), arrive unsorted and overlap earlier intervals. "
-    "non-trivial = at least two stations with different directions, or a history with a collocated or unsorted addition"
+    "plus histories on one hole mixing position queries, collar changes, survey-table changes and add_data calls (the path is always "
+    "used before it is changed). non-trivial = at least two stations with different directions, or a history with a collocated or "
+    "unsorted addition, or a collar / survey change after the path was used"
 )
 LEVEL_TEXT = (
     "Proved for all collars, all survey tables with non-decreasing non-negative depths (single-row and repeated depths included) and all "
@@ -60,7 +62,7 @@ LEVEL_TEXT = (
     "own depth yields that station's location (continuity); beyond the last station the last leg's deviation is continued. For all "
     "histories of add_data calls (any number of depth / from-to data sets per call): every vertex with a DEPTH value sits where "
     "desurvey puts that depth (C18_vertex_on_surveyed_path; in leg k at loc_k + (d - depth_k) * dev_k, C18_vertex_in_leg), every cell joins the "
-    "desurveyed positions of its FROM and TO values, all arrays stay aligned (through sort_depths). Partial: values stay attached under a side "
+    "desurveyed positions of its FROM and TO values, all arrays stay aligned (through sort_depths); the cached path is never stale: after any history of collar / survey changes, queries and calls the path used is that of the current collar and surveys (C18_path_cache_coherent). Partial: values stay attached under a side "
     "condition (refuted without it: open finding); the direction map (trigonometry) is a parameter; np.divide(where=) without out= is "
     "repaired by a fix patch (the unrepaired code reads uninitialised memory; probed by the oracle with a poisoned output). The model is "
     "tied to the code on every run by evaluating it inside Coq on generated inputs."
@@ -242,6 +244,41 @@ def gen_data(rng, wild):
     return {"kind": "data", "collar": gen_collar(rng), "surveys": s, "calls": calls}
 
 
+def gen_hist(rng):
+    """one hole: position queries, collar changes, survey changes and add_data calls in any order (changes mostly before the
+    first data call; the path is always evaluated at least once before a change)."""
+    s = gen_surveys(rng, True)
+    steps, pool, ipool, name = [], [], [], 0
+    cur = s
+    data_seen = False
+    for _ in range(rng.range(3, 7)):
+        w = rng.below(100)
+        if w < 35:
+            steps.append({"op": "query", "depths": [0.0] + gen_queries(rng, cur)[:4]})
+        elif w < 55 and (not data_seen or rng.chance(25)):
+            steps.append({"op": "collar", "value": gen_collar(rng)})
+        elif w < 68 and (not data_seen or rng.chance(25)):
+            cur = gen_surveys(rng, True) or [[0.0, 0, -90]]
+            steps.append({"op": "surveys", "value": cur})
+        else:
+            tol = rng.choice(TOLS)
+            subs = []
+            for k in range(rng.weighted([(1, 70), (2, 30)])):
+                sub = _gen_sub(rng, False, name, tol, pool, ipool, None)
+                name += 1
+                subs.append(sub)
+                if sub["op"] == "depth":
+                    pool += sub["depth"]
+                else:
+                    ipool += [tuple(x) for x in sub["ft"]]
+            steps.append({"op": "call", "tol": tol, "subs": subs})
+            data_seen = True
+    if not any(st["op"] in ("query", "call") for st in steps[:-1]) or steps[-1]["op"] in ("collar", "surveys"):
+        steps.insert(0, {"op": "query", "depths": [0.0, 1.0]})
+        steps.append({"op": "query", "depths": [0.0, 2.5]})
+    return {"kind": "hist", "collar": gen_collar(rng), "surveys": s, "steps": steps}
+
+
 def _calls(case):
     """histories are lists of calls; corpus files written before multi-data-set calls existed list single ops."""
     if "calls" in case:
@@ -285,6 +322,8 @@ def generate(rng, tier):
         cases.append(gen_data(rng, wild=False))
     for _ in range(800 if thorough else 60):
         cases.append(gen_data(rng, wild=True))
+    for _ in range(900 if thorough else 90):
+        cases.append(gen_hist(rng))
     return cases
 
 
@@ -402,6 +441,42 @@ def _drive_data(case, ws):
     return res
 
 
+def _drive_hist(case, ws):
+    import numpy as np
+
+    w = _mk_hole(ws, case)
+    res = {"outs": []}
+    vnames, cnames = [], []
+    for k, st in enumerate(case["steps"]):
+        try:
+            if st["op"] == "collar":
+                w.collar = [float(x) for x in st["value"]]
+            elif st["op"] == "surveys":
+                w.surveys = np.array(st["value"], dtype=float)
+            elif st["op"] == "query":
+                q = np.array([float(x) for x in st["depths"]], dtype=float)
+                res["outs"].append({"positions": [[_obs_num(x) for x in r] for r in np.asarray(w.desurvey(q)).tolist()]})
+            else:
+                kw = {} if st["tol"] is None else {"collocation_distance": float(st["tol"])}
+                data = {}
+                for sub in st["subs"]:
+                    vals = np.array([float("nan") if v is None else float(v) for v in sub["values"]])
+                    if sub["op"] == "depth":
+                        data[f"v{sub['name']}"] = {"depth": np.array(sub["depth"], dtype=float), "values": vals}
+                    else:
+                        data[f"c{sub['name']}"] = {"from-to": np.array(sub["ft"], dtype=float).reshape((-1, 2)), "values": vals}
+                w.add_data(data, **kw)
+                for sub in st["subs"]:
+                    (vnames if sub["op"] == "depth" else cnames).append(sub["name"])
+                res["outs"].append(_rows(w, vnames, cnames))
+        except Exception as e:  # noqa: BLE001
+            res["error"] = type(e).__name__
+            res["msg"] = str(e)[:200]
+            res["at"] = k
+            break
+    return res
+
+
 def drive_one(case, work):
     from geoh5py import Workspace
 
@@ -412,6 +487,8 @@ def drive_one(case, work):
         with Workspace.create(path) as ws:
             if case["kind"] == "desurvey":
                 return _drive_desurvey(case, ws)
+            if case["kind"] == "hist":
+                return _drive_hist(case, ws)
             return _drive_data(case, ws)
     finally:
         if os.path.exists(path):
@@ -455,7 +532,62 @@ def _ops_term(case):
     return clist(calls)
 
 
+def _subs_term(subs, tol):
+    t = cq(0.01 if tol is None else tol)
+    out = []
+    for op in subs:
+        vals = clist(coq_oq(v) for v in op["values"])
+        if op["op"] == "depth":
+            out.append(f"AddDepth {cnat(op['name'])} {clist(cq(d) for d in op['depth'])} {vals} {t}")
+        else:
+            out.append(f"AddInterval {cnat(op['name'])} {clist('(%s, %s)' % (cq(f), cq(t2)) for f, t2 in op['ft'])} {vals} {t}")
+    return clist(out)
+
+
+def _stations(s):
+    return clist(f"({cq(d)}, ({cq(a)}, {cq(p)}))" for d, a, p in s)
+
+
+def _hist_term(case, obs):
+    if "error" in obs:
+        return "false"
+    tables = [case["surveys"] if case["surveys"] is not None else [[0, 0, -90]]] + [st["value"] for st in case["steps"] if st["op"] == "surveys"]
+    for tb in tables:
+        ds = [0] + [r[0] for r in tb]
+        if not _exact_table(tb) or any(a > b for a, b in zip(ds, ds[1:])):
+            return None
+    ops, outs = [], []
+    it = iter(obs["outs"])
+    for st in case["steps"]:
+        if st["op"] == "collar":
+            ops.append(f"DSetCollar {cv3(st['value'])}")
+        elif st["op"] == "surveys":
+            ops.append(f"DSetSurveys {_stations(st['value'])}")
+        elif st["op"] == "query":
+            o = next(it)
+            if not _is_exact(o["positions"]) or any(x is None for r in o["positions"] for x in r):
+                return "false"
+            ops.append(f"DQuery {clist(cq(q) for q in st['depths'])}")
+            outs.append("OQuery %s" % clist(f"(Some {cv3(r)})" for r in o["positions"]))
+        else:
+            o = next(it)
+            for r in o["vrows"]:
+                if not _is_exact(r) or any(x is None for x in r[1]):
+                    return "false"
+            for r in o["crows"]:
+                if not _is_exact(r) or r[0] is None or r[1] is None or r[2] is None or r[3] is None:
+                    return "false"
+            ds = [r[0] for r in o["vrows"] if r[0] is not None]
+            if len(ds) != len(set(Fraction(d) for d in ds)):
+                return None
+            ops.append(f"DCall {_subs_term(st['subs'], st['tol'])}")
+            outs.append("OCall %s %s" % (clist(_vrow(r) for r in o["vrows"]), clist(_crow(r) for r in o["crows"])))
+    return f"dh_agree {cv3(case['collar'])} {_stations(tables[0])} {clist(ops)} {clist(outs)}"
+
+
 def case_term(case, obs):
+    if case["kind"] == "hist":
+        return _hist_term(case, obs)
     if not _exact_table(case["surveys"]) or not _sorted_table(case):
         return None
     if case["kind"] == "desurvey":
@@ -487,6 +619,8 @@ def case_term(case, obs):
 
 
 def model_term(case):
+    if case["kind"] == "hist":
+        return None
     if not _exact_table(case["surveys"]) or not _sorted_table(case):
         return None
     if case["kind"] == "desurvey":
@@ -577,19 +711,27 @@ def _oracle_desurvey(case, obs):
 
 
 def _oracle_data(case, obs):
-    fails = []
     calls = _calls(case)
     if "error" in obs:
         return [{"key": "add-data-refused", "what": f"call {obs['at']} raised {obs['error']}: {obs.get('msg')}"}]
     if not _sorted_table(case) or not _exact_table(case["surveys"]):
-        return fails
+        return []
     path = _Path(case["collar"], case["surveys"], True)
+    return _judge_calls(calls, obs["steps"], [path] * len(calls))
+
+
+def _judge_calls(calls, steps, paths):
+    """paths[k]: the surveyed path every vertex / cell must lie on after call k, or None when vertices created on an earlier
+    path (before a collar / survey change) are present and positions are not judged."""
+    fails = []
+    obs = {"steps": steps}
     added_v, added_c = [], []  # (name, j, depth, value, tol, call, before, rivals) / (name, j, f, t, value, tol, call, before, rivals)
     vorder, corder = [], []
     had_depth = False
     for k, (call, st) in enumerate(zip(calls, obs["steps"])):
         tol = Fraction(0.01) if call["tol"] is None else Fraction(call["tol"])
         vrows, crows = st["vrows"], st["crows"]
+        path = paths[k]
         kinds = [sub["op"] for sub in call["subs"]]
         # the recorded (repaired) defect: a from-to data set validated before a depth data set of the same call while DEPTH exists
         mixed = had_depth and any(a == "interval" and "depth" in kinds[i + 1:] for i, a in enumerate(kinds))
@@ -598,7 +740,7 @@ def _oracle_data(case, obs):
             if not _is_exact(r) or any(x is None for x in r[1]):
                 fails.append({"key": "vertex-inexact", "what": f"after call {k}: vertex {i} = {r}"})
                 return fails
-            if r[0] is not None and tuple(Fraction(x) for x in r[1]) != path.pos(Fraction(r[0])):
+            if path is not None and r[0] is not None and tuple(Fraction(x) for x in r[1]) != path.pos(Fraction(r[0])):
                 key = "depth-after-interval-misaligned" if mixed else "vertex-not-at-depth"
                 fails.append({"key": key, "what": f"after call {k}: vertex {i} has DEPTH {r[0]} but sits at {r[1]}"})
                 return fails
@@ -607,7 +749,7 @@ def _oracle_data(case, obs):
             if r[0] is None or r[1] is None or r[2] is None or r[3] is None or not _is_exact(r):
                 fails.append({"key": "cell-dangling", "what": f"after call {k}: cell {c} = {r}"})
                 return fails
-            if tuple(Fraction(x) for x in r[0]) != path.pos(Fraction(r[2])) or tuple(Fraction(x) for x in r[1]) != path.pos(Fraction(r[3])):
+            if path is not None and (tuple(Fraction(x) for x in r[0]) != path.pos(Fraction(r[2])) or tuple(Fraction(x) for x in r[1]) != path.pos(Fraction(r[3]))):
                 fails.append({"key": "cell-not-joining-from-to", "what": f"after call {k}: cell {c} FROM {r[2]} TO {r[3]} joins {r[0]} - {r[1]}"})
                 return fails
         # the values of this and of every earlier call are attached to their depth / interval
@@ -649,16 +791,57 @@ def _oracle_data(case, obs):
     return fails
 
 
+def _oracle_hist(case, obs):
+    """collar / survey changes, queries and add_data calls on one hole: every query and every call uses the path of the
+    collar and survey table as they are at that moment."""
+    if "error" in obs:
+        return [{"key": f"history-step-refused-{case['steps'][obs['at']]['op']}", "what": f"step {obs['at']} raised {obs['error']}: {obs.get('msg')}"}]
+    fails = []
+    collar, surveys = case["collar"], case["surveys"]
+    calls, steps, paths = [], [], []
+    data_seen = moved_after_data = False
+    it = iter(obs["outs"])
+    for k, st in enumerate(case["steps"]):
+        if st["op"] == "collar":
+            collar = st["value"]
+            moved_after_data = moved_after_data or data_seen
+        elif st["op"] == "surveys":
+            surveys = st["value"]
+            moved_after_data = moved_after_data or data_seen
+        elif st["op"] == "query":
+            out = next(it)
+            path = _Path(collar, surveys, True)
+            for q, got in zip(st["depths"], out["positions"]):
+                if not _is_exact(got) or any(x is None for x in got) or tuple(Fraction(x) for x in got) != path.pos(q):
+                    where = "collar-at-zero" if q == 0 else "query"
+                    fails.append({"key": f"stale-path-{where}", "what": f"step {k}: desurvey({q}) = {got}, the path of the current collar "
+                                  f"{collar} and surveys gives {tuple(map(str, path.pos(q)))}"})
+                    return fails
+        else:
+            out = next(it)
+            calls.append(st)
+            steps.append(out)
+            paths.append(None if moved_after_data else _Path(collar, surveys, True))
+            data_seen = True
+    return fails + _judge_calls(calls, steps, paths)
+
+
 def oracle(case, obs):
     if "crash" in obs:
         return [{"key": "driver-crash", "what": obs["crash"][:300]}]
     if case["kind"] == "desurvey":
         return _oracle_desurvey(case, obs)
+    if case["kind"] == "hist":
+        return _oracle_hist(case, obs)
     return _oracle_data(case, obs)
 
 
 # ----------------------------------------------------------------------------- evidence
 def nontrivial(case, obs):
+    if case["kind"] == "hist":
+        ops = [st["op"] for st in case["steps"]]
+        first_use = min([i for i, o in enumerate(ops) if o in ("query", "call")] or [99])
+        return any(o in ("collar", "surveys") and i > first_use for i, o in enumerate(ops))
     s = case["surveys"] or []
     if case["kind"] == "desurvey":
         return len({(r[1] % 360, r[2]) for r in s}) >= 2
@@ -676,7 +859,7 @@ def nontrivial(case, obs):
 
 def histogram(cases, obs):
     h = {"kind": {}, "rows": {}, "first_depth_zero": 0, "repeated_station_depth": 0, "default_table": 0, "exact_tables": 0,
-         "ops_per_history": {}, "data_sets_per_call": {}, "op_kinds": {"depth": 0, "interval": 0}, "explicit_tolerance": 0, "poison_nan": 0, "outcome": {}}
+         "hist_steps": {}, "ops_per_history": {}, "data_sets_per_call": {}, "op_kinds": {"depth": 0, "interval": 0}, "explicit_tolerance": 0, "poison_nan": 0, "outcome": {}}
     for c, o in zip(cases, obs):
         h["kind"][c["kind"]] = h["kind"].get(c["kind"], 0) + 1
         s = c["surveys"]
@@ -691,6 +874,9 @@ def histogram(cases, obs):
                 h["repeated_station_depth"] += 1
         if _exact_table(s):
             h["exact_tables"] += 1
+        if c["kind"] == "hist":
+            for st in c["steps"]:
+                h["hist_steps"][st["op"]] = h["hist_steps"].get(st["op"], 0) + 1
         if c["kind"] == "data":
             cl = _calls(c)
             n = str(len(cl))
